@@ -243,6 +243,38 @@ void check_c17(Tape& t, Ctx& ctx) {
            "c1-backward-at-switch", "backward discontinuous across tau=0 (h=2^-" << k << ")");
     ctx.label("switch:h=2^-" + std::to_string(k));
   }
+  // (4) dense runs: 96 CONSECUTIVE floating-point numbers from a start with a random 52-bit mantissa (not a "nice" value), either
+  //     sign, magnitudes 2^-14 ... 2^6.  Every floating-point step of either branch is monotone, so the computed map must be too;
+  //     and the inverse likewise over consecutive durations.  Round trips are checked at every point of the run.
+  if (t.chance(1, 4)) {
+    auto rnd_mant = [&]() { uint64_t m = ((uint64_t)t.raw() << 20) ^ (uint64_t)t.raw(); return (double)(m & ((1ull << 52) - 1)) * pow2i(-52); };
+    double tau = std::ldexp(1.0 + rnd_mant(), t.range(-14, 6));
+    if (t.flag()) tau = -tau;
+    double prev = qm.toTime(tau);
+    for (int i = 0; i < 96; ++i) {
+      double nx = std::nextafter(tau, INFINITY);
+      double Tn = qm.toTime(nx);
+      VCHECK(ctx, Tn >= prev, "monotone-adjacent", "toTime decreases between adjacent doubles: toTime(" << hexd(tau) << ")=" << hexd(prev) << " > toTime(" << hexd(nx) << ")=" << hexd(Tn));
+      long double rt = fabsl((long double)qm.toTau(Tn) - (long double)nx);
+      // the inverse recovers tau to the precision T carries: |d tau| <= (ulp(T)/2 + 8 eps T) / T'(tau) plus rounding of tau itself
+      long double slope = refdT((long double)nx);
+      long double allow = (16 * EPS * (long double)Tn) / slope + 16 * EPS * fabsl((long double)nx) + 1e-300L;
+      VCHECK(ctx, rt <= allow, "roundtrip-tau", "dense run: toTau(toTime(" << hexd(nx) << ")) = " << g17(qm.toTau(Tn)) << ", off by " << lg(rt) << " (allowed " << lg(allow) << ")");
+      tau = nx; prev = Tn;
+    }
+    double Tq = std::ldexp(1.0 + rnd_mant(), t.range(-10, 6));
+    double pv = qm.toTau(Tq);
+    for (int i = 0; i < 96; ++i) {
+      double nx = std::nextafter(Tq, INFINITY);
+      double un = qm.toTau(nx);
+      VCHECK(ctx, un >= pv, "monotone-adjacent", "toTau decreases between adjacent durations: toTau(" << hexd(Tq) << ")=" << hexd(pv) << " > toTau(" << hexd(nx) << ")=" << hexd(un));
+      long double back = qm.toTime(un);
+      long double allowT = 16 * EPS * (long double)nx + 16 * EPS * fabsl((long double)un) * refdT((long double)un);
+      VCHECK(ctx, fabsl(back - (long double)nx) <= allowT, "roundtrip-T", "dense run: toTime(toTau(" << hexd(nx) << ")) = " << lg(back) << " (allowed deviation " << lg(allowT) << ")");
+      Tq = nx; pv = un;
+    }
+    ctx.label("dense-run");
+  }
 }
 
 bool selftest_c17(std::string& m) {
